@@ -432,7 +432,9 @@ func genType(rng *lp.Rng, depth int) datatype.DataType {
 		}
 	}
 	udtCounter++
-	u, err := datatype.NewUserDefined("ks", fmt.Sprintf("udt%d", udtCounter), names, fs)
+	// (a name identifies a type within one schema version only: a type dropped and created again, or two clusters, give different
+	// definitions under one name in one process — a few names are used over and over)
+	u, err := datatype.NewUserDefined("ks", fmt.Sprintf("udt%d", udtCounter%3), names, fs)
 	must(err)
 	return u
 }
